@@ -26,7 +26,7 @@ Proof.
 Qed.
 
 Lemma selection_space_ws c it :
-  selection_space (mkCfg (c_feats c) false (c_ws c) false [] None) it = selection_space c it.
+  selection_space (mkCfg (c_feats c) false (c_ws c) false [] None false) it = selection_space c it.
 Proof. reflexivity. Qed.
 
 Section Inv.
@@ -890,7 +890,7 @@ Proof.
         -- intro X. rewrite (rel_negd0 X). exact Hn0.
         -- reflexivity.
         -- exact rel_hdr0.
-        -- intro X. split; [apply rel_first0; exact X | reflexivity].
+        -- intro X. apply andb_true_iff in X. destruct X as [X _]. split; [apply rel_first0; exact X | reflexivity].
         -- discriminate.
         -- exact rel_exp0.
         -- exact rel_ref0.
@@ -1026,3 +1026,59 @@ Proof.
   change ft_starttls_nec with 0%N. change ft_starttls_proh with st_Secure.
   rewrite (not_secure_disj _ F4). unfold has. rewrite N.land_0_r. reflexivity.
 Qed.
+
+(* ------------------------------------------------------------------ the clauses, event by event *)
+
+(* [holds] is "at every event, in the monitor state reached by the events before it" *)
+Lemma holds_at fs ws P q tr :
+  holds fs ws P q tr <-> (forall pre e post, tr = pre ++ e :: post -> P (final fs ws q pre) e).
+Proof.
+  revert q. induction tr as [|x r IH]; intro q; simpl.
+  - split; [|auto]. intros _ pre e post E. destruct pre; discriminate.
+  - rewrite IH. split.
+    + intros [X Y] pre e post E. destruct pre as [|p pre]; simpl in *.
+      * inversion E; subst. exact X.
+      * inversion E; subst. eapply Y. reflexivity.
+    + intro A. split.
+      * apply (A [] x r). reflexivity.
+      * intros pre e post E. apply (A (x :: pre) e post). simpl. rewrite E. reflexivity.
+Qed.
+
+Section Direct.
+Variables (c : config) (bits : N) (clear tls : list pitem) (outs : list outcome) (choices : list bytes).
+Let r := run c bits clear tls outs choices.
+Let fs := c_feats c.
+Let ws := c_ws c.
+Variables (pre post : list event).
+Let q := final fs ws (mon0 bits) pre.
+
+Lemma at_neg_advertised f st o :
+  trace r = pre ++ ENeg f st o :: post ->
+  f_neg f = true /\ mem (f_space f) (q_negd q) = false /\
+  ((In (fname f) (q_adv q) /\ exists req, In (req, f) (q_cache q)) \/ forced fs q f st).
+Proof. intro E. exact (proj1 (holds_at _ _ _ _ _) (clause_advertised c bits clear tls outs choices) _ _ _ E). Qed.
+
+Lemma at_neg_prerequisites f st o :
+  trace r = pre ++ ENeg f st o :: post -> eligible f st = true \/ forced fs q f st.
+Proof. intro E. exact (proj1 (holds_at _ _ _ _ _) (clause_prerequisites c bits clear tls outs choices) _ _ _ E). Qed.
+
+Lemma at_neg_voluntary_first f st o :
+  trace r = pre ++ ENeg f st o :: post ->
+  q_recv q = false -> In (true, f) (q_cache q) ->
+  forall g, In (false, g) (q_cache q) -> cand (q_negd q) st (false, g) = false.
+Proof. intro E. exact (proj1 (holds_at _ _ _ _ _) (clause_voluntary_first c bits clear tls outs choices) _ _ _ E). Qed.
+
+Lemma at_event_monotone e : trace r = pre ++ e :: post -> cl_monotone q e.
+Proof. intro E. exact (proj1 (holds_at _ _ _ _ _) (proj1 (clause_monotone c bits clear tls outs choices)) _ _ _ E). Qed.
+
+Lemma at_event_restart e : trace r = pre ++ e :: post -> cl_restart q e.
+Proof. intro E. exact (proj1 (holds_at _ _ _ _ _) (clause_restart c bits clear tls outs choices) _ _ _ E). Qed.
+
+Lemma at_features_written st names :
+  trace r = pre ++ EOut (WFeatures st names true) :: post -> names = map fname (listed fs st).
+Proof. intro E. exact (proj1 (holds_at _ _ _ _ _) (clause_advertises c bits clear tls outs choices) _ _ _ E). Qed.
+
+Lemma at_event_refuses e : trace r = pre ++ e :: post -> cl_refuses q e.
+Proof. intro E. exact (proj1 (holds_at _ _ _ _ _) (proj1 (clause_refuses c bits clear tls outs choices)) _ _ _ E). Qed.
+
+End Direct.
